@@ -14,11 +14,13 @@ Local Open Scope Z_scope.
 
 (* ---- whole functions *)
 Theorem leaf_mix64_is_model : forall h, Digest.leaf_mix64_dom h -> Digest.leaf_mix64 h = DigestModel.mix64 h.
-Proof. intros h _. unfold Digest.leaf_mix64, DigestModel.mix64, DigestModel.W64. reflexivity. Qed.
+Proof. intros h _. unfold Digest.leaf_mix64, DigestModel.mix64, DigestModel.W64. reflexivity.
+Qed.
 Print Assumptions leaf_mix64_is_model.
 
 Theorem leaf_mix32_is_model : forall h, Digest.leaf_mix32_dom h -> Digest.leaf_mix32 h = DigestModel.mix32 h.
-Proof. intros h _. unfold Digest.leaf_mix32, DigestModel.mix32, DigestModel.W32. reflexivity. Qed.
+Proof. intros h _. unfold Digest.leaf_mix32, DigestModel.mix32, DigestModel.W32. reflexivity.
+Qed.
 Print Assumptions leaf_mix32_is_model.
 
 (* rotl32(val, bits) = (val << bits) | (val >> (32U - bits)): both shifts are defined in C only for 0 < bits < 32; the
@@ -39,7 +41,8 @@ Definition model_step64 (h k : Z) : Z := (Z.lxor h (DigestModel.mix64 k) * Diges
 Theorem leaf_digest64_init_is_model :
   forall seed len, Digest.leaf_digest64_init seed len = model_init64 seed len /\
                    Digest.leaf_digest64_aligned_init seed len = model_init64 seed len.
-Proof. intros. split; reflexivity. Qed.
+Proof. intros. split; reflexivity.
+Qed.
 Print Assumptions leaf_digest64_init_is_model.
 
 Theorem leaf_digest64_step_is_model :
@@ -69,7 +72,8 @@ Theorem digest64_model_unfolds :
       DigestModel.digest64_aligned seed blocks =
       let len := 8 * Z.of_nat (length blocks) in
       DigestModel.mix64 (DigestModel.ablocks64 (Z.to_nat (len / 8)) blocks 0 (len / 8) (model_init64 seed len))).
-Proof. repeat split; reflexivity. Qed.
+Proof. repeat split; reflexivity.
+Qed.
 Print Assumptions digest64_model_unfolds.
 
 (* ---- 32-bit fragments *)
@@ -104,7 +108,8 @@ Theorem leaf_digest32_final_is_model :
   forall h k len, Digest.leaf_digest32_final h len = model_final32 h len /\
                   Digest.leaf_digest32_aligned_final h len = model_final32 h len /\
                   Digest.leaf_digest32_tail_h h k = Z.lxor h k.
-Proof. intros. repeat split; reflexivity. Qed.
+Proof. intros. repeat split; reflexivity.
+Qed.
 Print Assumptions leaf_digest32_final_is_model.
 
 Theorem digest32_model_unfolds :
@@ -124,7 +129,8 @@ Theorem digest32_model_unfolds :
       DigestModel.digest32_aligned seed blocks =
       let len := 4 * Z.of_nat (length blocks) in
       DigestModel.mix32 (model_final32 (DigestModel.ablocks32 (Z.to_nat (len / 4)) blocks 0 (len / 4) seed) len)).
-Proof. repeat split; reflexivity. Qed.
+Proof. repeat split; reflexivity.
+Qed.
 Print Assumptions digest32_model_unfolds.
 
 (* ---- constants *)
@@ -135,7 +141,8 @@ Theorem digest_multipliers_are_model :
   Digest.digest32_c2 = DigestModel.c2_32 /\ Digest.digest32_aligned_c2 = DigestModel.c2_32 /\
   Digest.digest32_c1 = DigestSpec.mm_c1 /\ Digest.digest32_c2 = DigestSpec.mm_c2 /\
   Digest.digest32_rotl_amounts = [15; 13; 15] /\ Digest.digest32_aligned_rotl_amounts = [15; 13].
-Proof. repeat split; reflexivity. Qed.
+Proof. repeat split; reflexivity.
+Qed.
 Print Assumptions digest_multipliers_are_model.
 
 (* every integer literal of each function, in source order, is the one the model has at that place: for
@@ -151,5 +158,6 @@ Theorem digest_literals_are_model :
   Digest.zix_digest32_literals =
     [DigestModel.c1_32; DigestModel.c2_32; 0; 15; 13; 5; 0xE6546B64; 0; 3;  3; 2; 16;  2; 1; 8;  1; 0;  15] /\
   Digest.zix_digest32_aligned_literals = [DigestModel.c1_32; DigestModel.c2_32; 0; 0; 0; 15; 13; 5; 0xE6546B64].
-Proof. repeat split; reflexivity. Qed.
+Proof. repeat split; reflexivity.
+Qed.
 Print Assumptions digest_literals_are_model.
